@@ -469,6 +469,7 @@ type FuncSpec struct {
 	Propagates      bool
 	DeferredHandler bool
 	WorkerEnsures   []*SExpr
+	CallbackEnsures []*SExpr        // checked on every normal return of a function literal used as a value
 	WatchCalls      map[string]bool // callee expressions whose calls are recorded (ghost call records)
 	Local           map[*SExpr]bool // postconditions not exported to other callers (clause `proves`)
 	ChanNonNil      bool
@@ -690,6 +691,16 @@ func parseClause(f *FuncSpec, word, rest string) error {
 			return err
 		}
 		f.WorkerEnsures = append(f.WorkerEnsures, e)
+	case "callback":
+		w, r2 := splitWord(rest)
+		if w != "ensures" {
+			return fmt.Errorf("callback: expected ensures")
+		}
+		e, err := parseSpecExpr(r2)
+		if err != nil {
+			return err
+		}
+		f.CallbackEnsures = append(f.CallbackEnsures, e)
 	case "propagates":
 		f.Propagates = true
 	case "deferred-handler":
